@@ -79,9 +79,9 @@ META["C15"] = _m("proof", "DESIGN.md section 6, C15",
     "GC may rewrite only what nobody can read: the theorems show that for the model in every reachable state; the twins check the real collector.",
     "The general 'gc replica = no-gc replica' theorem carries a side condition (ops not below a collected parent) that is discharged unconditionally only for documents without nested types; nested cases are covered by the twins.")
 META["C03"] = _m("proof", "DESIGN.md section 6, C03",
-    "Coq refinement theorems (local insert / remove / map write on the unit-level item list = the operation on the plain sequence / dictionary, whatever tombstones and marks surround it) + generated programs against plain reference structures in both offset kinds, gc on/off",
+    "Coq refinement theorems (local insert / remove / map write on the unit-level item list = the operation on the plain sequence / dictionary, whatever tombstones and marks surround it; rich-text calls on the item list with formatting markers = the call on a list of elements with attribute maps) + every rich-text call of generated programs against the extracted item-level model and the specification + generated programs against plain reference structures in both offset kinds, gc on/off",
     "The implementation's behaviour depends on the block layout left by earlier calls; the theorems quantify over every list (every layout at unit level), the programs reach real layouts (splits, squashes, tombstones, format marks).",
-    "Partial: rich-text attribute semantics is decided by the reference comparison only.")
+    "Rich text: the item-level algorithms are modelled and proved to refine the attributed sequence (Crdt/RichText.v; defect b6f7856 found by the proof). Partial: XML attribute maps and edits through nested types are decided by the reference comparison only.")
 META["C17"] = _m("proof", "DESIGN.md section 6, C17",
     "pairwise comparison of every public read accessor on every state reached by the C03 programs (the deciding part) + Coq statements that all counts and the map entry derive from the same live units",
     "This property is about redundant implementation paths (cached counters, cursor vs linked-list walk); a model with a single representation cannot contain the bug class, so the weight is on the exhaustive pairwise comparison after every transaction.",
